@@ -3,7 +3,6 @@ package main
 import (
 	"fmt"
 	"go/constant"
-	"go/token"
 	"go/types"
 	"sort"
 	"strings"
@@ -144,24 +143,15 @@ func runC10_2(c *Ctx) {
 	_, pushIdx := p.FieldIndex(Root, "SubRouter", "pushHandlers")
 	pnCall := constant.StringVal(p.ConstVal(Root, "pnCall"))
 	okChoice := false
-	for _, b := range reg.Blocks {
-		ifi, isIf := b.Instrs[len(b.Instrs)-1].(*ssa.If)
-		if !isIf {
+	for _, ee := range EqEdges(reg) {
+		if ee.X != ssa.Value(reg.Params[1]) {
 			continue
 		}
-		cv, neg := stripNot(ifi.Cond)
-		bo, isB := cv.(*ssa.BinOp)
-		if !isB || bo.Op != token.EQL || bo.X != ssa.Value(reg.Params[1]) {
-			continue
-		}
-		cst, isC := bo.Y.(*ssa.Const)
+		cst, isC := ee.Y.(*ssa.Const)
 		if !isC || cst.Value == nil || cst.Value.Kind() != constant.String || constant.StringVal(cst.Value) != pnCall {
 			continue
 		}
-		t, f := b.Succs[0], b.Succs[1]
-		if neg {
-			t, f = f, t
-		}
+		t, f := ee.Eq, ee.Ne
 		// the map used by the insert is a phi of (callHandlers on the CALL edge, pushHandlers otherwise)
 		Instrs(reg, func(i ssa.Instruction) {
 			mu, isMU := i.(*ssa.MapUpdate)
@@ -175,10 +165,10 @@ func runC10_2(c *Ctx) {
 			good := 0
 			for k, e := range phi.Edges {
 				pred := phi.Block().Preds[k]
-				if isFieldLoad(e, srN, callIdx) && (pred == t || t.Dominates(pred)) {
+				if isFieldLoad(e, srN, callIdx) && (edgeCovers(ee.If.Block(), t, pred, nil) || (pred == ee.If.Block() && t == phi.Block())) {
 					good++
 				}
-				if isFieldLoad(e, srN, pushIdx) && (pred == f || f.Dominates(pred) || pred == b) {
+				if isFieldLoad(e, srN, pushIdx) && (edgeCovers(ee.If.Block(), f, pred, nil) || (pred == ee.If.Block() && f == phi.Block())) {
 					good++
 				}
 			}
